@@ -4,6 +4,7 @@ instantiate them, and CliDevice -- the reference model of a device that holds on
 words, '*', trailing '~'); it never calls annet's compile_row_regexp.
 """
 import copy
+import re
 from collections import OrderedDict as odict
 
 # (some head words merely BEGIN with a vendor's negation prefix: 'notify', 'undolog' are ordinary commands)
@@ -19,7 +20,7 @@ LOGICS = [None, None, None, None, "undo_redo", "permanent", "ignore_changes"]
 
 class RuleSpec:
     __slots__ = ("uid", "lit", "nkeys", "tail", "logic", "ordered", "rewrite", "is_global", "neg", "children",
-                 "block", "timeout", "dialogs", "deploy_nested")
+                 "block", "timeout", "dialogs", "deploy_nested", "key_re", "twin")
 
     def __init__(self, uid, lit, nkeys=0, tail=False, logic=None, ordered=False, rewrite=False, is_global=False,
                  neg=False, children=None, block=False):
@@ -30,9 +31,14 @@ class RuleSpec:
         self.timeout = None
         self.dialogs = []
         self.deploy_nested = False
+        self.key_re = None        # regex the first key word must match in full:  lit */re/
+        self.twin = None          # toggle pair: 'x *' and '<rev> x *' are the two forms of one device setting
 
     def pattern(self, rev):
-        return ((rev + " ") if self.neg else "") + self.lit + " *" * self.nkeys + (" ~" if self.tail else "")
+        stars = ["*"] * self.nkeys
+        if self.key_re and stars:
+            stars[0] = "*/%s/" % self.key_re
+        return ((rev + " ") if self.neg else "") + " ".join([self.lit] + stars) + (" ~" if self.tail else "")
 
     def rule_text(self, rev):
         s = self.pattern(rev)
@@ -46,6 +52,8 @@ class RuleSpec:
 
     def describe(self):
         flags = [f for f in ("ordered", "rewrite", "is_global", "neg", "block") if getattr(self, f)]
+        if self.key_re:
+            flags.append("re=" + self.key_re)
         return "%s/%d%s%s%s" % (self.lit, self.nkeys, "~" if self.tail else "", ("[%s]" % self.logic) if self.logic else "",
                                 ("{%s}" % ",".join(flags)) if flags else "")
 
@@ -121,6 +129,17 @@ def gen_rulebook(ch, vendor, rev, exit_word, unique_heads=False, allow=None):
                     logic = "permanent" if ("logic" in allow and not ordd and not under_ordered and ch.draw(8, "bperm") == 0) else None
                     r = RuleSpec(uid(), head(True, used), nkeys=nk, ordered=ordd, logic=logic, block=True)
                     r.children = gen(depth + 1, under_ordered or ordd)
+                    if "overlap" in allow and nk == 1 and not ordd and logic is None and ch.draw(3, "overlap") == 0:
+                        # a more specific block rule for the same head, listed first: 'lit */k\d+/' before 'lit *';
+                        # its child rules compete with the generic rule's children for the same commands
+                        sp = RuleSpec(uid(), r.lit, nkeys=1, block=True)
+                        sp.key_re = "k\\d+"
+                        leafs = [c for c in r.children if not c.block and not c.ordered and not c.neg]
+                        if leafs:
+                            c = leafs[ch.draw(len(leafs), "overlap-child")]
+                            sp.children.append(RuleSpec(uid(), c.lit, nkeys=(c.nkeys + 1) % 3))
+                        sp.children.append(RuleSpec(uid(), "spec%d" % sp.uid, nkeys=ch.draw(2, "overlap-nk")))
+                        rules.append(sp)
             else:
                 nk = ch.pick([0, 1, 1, 2], "lkeys")
                 tail = ("tail" in allow) and ch.draw(5, "tail") == 0
@@ -131,6 +150,11 @@ def gen_rulebook(ch, vendor, rev, exit_word, unique_heads=False, allow=None):
                     logic = None
                 neg = ("neg" in allow) and (not ordd) and ch.draw(8, "neg") == 0
                 r = RuleSpec(uid(), head(False, used), nkeys=nk, tail=tail, logic=logic, ordered=ordd, neg=neg)
+                if neg and "twins" in allow and logic is None and ch.draw(2, "twin") == 0:
+                    # the positive form of the same setting is a rule of its own ('x *' next to 'undo x *')
+                    t = RuleSpec(uid(), r.lit, nkeys=nk, tail=tail)
+                    r.twin, t.twin = t, r
+                    rules.append(t)
             rules.append(r)
         return rules
 
@@ -148,25 +172,46 @@ def words(row):
     return row.split()
 
 
-def match_direct(rules, globals_, row, rev):
-    """(rule, key) if `row` directly instantiates one of the rules, else None"""
+def match_one(r, row, rev):
+    """key if `row` directly instantiates rule r, else None"""
     ws = words(row)
+    pre = ([rev] if r.neg else []) + [r.lit]
+    if ws[:len(pre)] != pre:
+        return None
+    rest = ws[len(pre):]
+    if len(rest) < r.nkeys:
+        return None
+    if r.tail and len(rest) < r.nkeys + 1:
+        return None
+    if r.block and len(rest) != r.nkeys:
+        return None
+    if r.key_re and not re.fullmatch(r.key_re, rest[0]):
+        return None
+    key = tuple(rest[:r.nkeys])
+    if r.tail:
+        key += (" ".join(rest[r.nkeys:]),)
+    return key
+
+
+def match_direct(rules, globals_, row, rev):
+    """(rule, key) if `row` directly instantiates one of the rules (the first one in rulebook order), else None"""
     for r in list(rules) + list(globals_):
-        pre = ([rev] if r.neg else []) + [r.lit]
-        if ws[:len(pre)] != pre:
-            continue
-        rest = ws[len(pre):]
-        if len(rest) < r.nkeys:
-            continue
-        if r.tail and len(rest) < r.nkeys + 1:
-            continue
-        if r.block and len(rest) != r.nkeys:
-            continue
-        key = tuple(rest[:r.nkeys])
-        if r.tail:
-            key += (" ".join(rest[r.nkeys:]),)
-        return r, key
+        key = match_one(r, row, rev)
+        if key is not None:
+            return r, key
     return None
+
+
+def kids(rules, row, r, rev):
+    """child rules in force inside the block `row` governed by rule r: when several block rules of the level match
+    the row (a specific 'lit */re/' listed before a generic 'lit *'), their children are merged, earlier rules first"""
+    if not r.block or r.rewrite:
+        return r.children
+    out = []
+    for x in rules:
+        if x.block and not x.rewrite and (x is r or match_one(x, row, rev) is not None):
+            out.extend(c for c in x.children if c not in out)
+    return out
 
 
 def match_removal(rules, globals_, row, rev):
@@ -223,10 +268,14 @@ def gen_tree(ch, rb, rules=None, depth=0, density=2):
             if m is None or m[0] is not r or (r.uid, m[1]) in seen:
                 continue
             seen.add((r.uid, m[1]))
+            if r.twin is not None:
+                if (r.twin.uid, m[1]) in seen:
+                    continue                      # a setting is configured in one of its two forms only
+                seen.add((r.twin.uid, m[1]))
             if r.rewrite:
                 t[row] = gen_rewrite_body(ch)
             elif r.block:
-                t[row] = gen_tree(ch, rb, r.children, depth + 1, density)
+                t[row] = gen_tree(ch, rb, kids(rules, row, r, rb.rev), depth + 1, density)
             else:
                 t[row] = odict()
     items = ch.shuffle(list(t.items()), "order")
@@ -246,22 +295,26 @@ def mutate_tree(ch, rb, tree, rules=None, depth=0):
         if act == 1 and not r.block:
             nrow = gen_row(ch, r, rb.rev)               # maybe change value/key
             mm = match_direct(rules, rb.globals, nrow, rb.rev)
-            if mm and mm[0] is r and find_line(out, rules, rb.globals, r, mm[1], rb.rev) is None:
+            if mm and mm[0] is r and find_line(out, rules, rb.globals, r, mm[1], rb.rev) is None and \
+                    (r.twin is None or find_line(out, rules, rb.globals, r.twin, mm[1], rb.rev) is None):
                 out[nrow] = odict()
             continue
         if find_line(out, rules, rb.globals, r, m[1], rb.rev) is not None:
             continue
+        if r.twin is not None and find_line(out, rules, rb.globals, r.twin, m[1], rb.rev) is not None:
+            continue
         if r.rewrite:
             out[row] = gen_rewrite_body(ch) if act == 2 else copy.deepcopy(sub)
         elif r.block:
-            out[row] = mutate_tree(ch, rb, sub, r.children, depth + 1) if act in (2, 3, 4) else copy.deepcopy(sub)
+            out[row] = mutate_tree(ch, rb, sub, kids(rules, row, r, rb.rev), depth + 1) if act in (2, 3, 4) else copy.deepcopy(sub)
         else:
             out[row] = odict()
     if ch.draw(2, "add") == 1:
         extra = gen_tree(ch, rb, rules, depth, density=1)
         for row, sub in extra.items():
             m = match_direct(rules, rb.globals, row, rb.rev)
-            if m and find_line(out, rules, rb.globals, m[0], m[1], rb.rev) is None and row not in out:
+            if m and find_line(out, rules, rb.globals, m[0], m[1], rb.rev) is None and row not in out and \
+                    (m[0].twin is None or find_line(out, rules, rb.globals, m[0].twin, m[1], rb.rev) is None):
                 out[row] = sub
     if ch.draw(3, "reorder") == 0:
         out = odict(ch.shuffle(list(out.items()), "reorder"))
@@ -282,9 +335,9 @@ def norm(tree, rb, rules=None, in_rewrite=False):
         elif r.rewrite:
             unord.append((row, norm(sub, rb, [], True)))
         elif r.ordered:
-            ordd.setdefault(r.uid, []).append((row, norm(sub, rb, r.children)))
+            ordd.setdefault(r.uid, []).append((row, norm(sub, rb, kids(rules, row, r, rb.rev))))
         else:
-            unord.append((row, norm(sub, rb, r.children)))
+            unord.append((row, norm(sub, rb, kids(rules, row, r, rb.rev))))
     return (tuple(sorted(unord, key=repr)), tuple(sorted((k, tuple(v)) for k, v in ordd.items())))
 
 
@@ -302,7 +355,7 @@ def expected_after(old, new, rb, rules=None):
                 res[oldrow] = copy.deepcopy(old[oldrow])
                 continue
         if r is not None and r.block and not r.rewrite and row in old:
-            res[row] = expected_after(old[row], sub, rb, r.children)
+            res[row] = expected_after(old[row], sub, rb, kids(rules, row, r, rb.rev))
         else:
             res[row] = copy.deepcopy(sub)
     for row, sub in old.items():
@@ -311,7 +364,7 @@ def expected_after(old, new, rb, rules=None):
         m = match_direct(rules, rb.globals, row, rb.rev)
         r = m[0] if m else None
         if r is not None and r.logic == "permanent" and find_line(new, rules, rb.globals, r, m[1], rb.rev) is None:
-            res[row] = expected_after(sub, odict(), rb, r.children) if r.block else odict()
+            res[row] = expected_after(sub, odict(), rb, kids(rules, row, r, rb.rev)) if r.block else odict()
     return res
 
 
@@ -478,6 +531,12 @@ class CliDevice:
                 tree[row] = odict()
                 self.ctx.append((row, [], tree[row], True))
                 return None
+            if r.twin is not None:
+                other = find_line(tree, rules, self.rb.globals, r.twin, key, self.rb.rev)
+                if other is not None:
+                    # the other form of the same setting goes away: for the oracles this is a removal of that line
+                    self.removals.append((idx, path + (other,), r.twin.uid, copy.deepcopy(tree[other])))
+                    del tree[other]
             if cur == row:
                 sub = tree[row]
             else:
@@ -486,7 +545,7 @@ class CliDevice:
                 tree[row] = odict()
                 sub = tree[row]
             if r.block:
-                self.ctx.append((row, r.children, sub, False))
+                self.ctx.append((row, kids(rules, row, r, self.rb.rev), sub, False))
             return None
         m = match_removal(rules, self.rb.globals, row, self.rb.rev)
         if m is None:
